@@ -87,7 +87,7 @@ where
             })
             .unwrap();
 
-        connection.session_expiry_interval >= elapsed
+        elapsed >= connection.session_expiry_interval
     }
 
     fn reset_session(session: &mut Session) {
